@@ -1483,6 +1483,7 @@ func (l *lexer) scanCmdSubst(r rune) bool {
 			done:     make(chan struct{}),
 			cancel:   make(chan struct{}),
 			heredoc:  heredoc{c: make(chan struct{}, 1)},
+			aliases:  l.aliases,
 			line:     l.line,
 			col:      l.col,
 		}
@@ -1508,6 +1509,7 @@ func (l *lexer) scanCmdSubst(r rune) bool {
 			break
 		}
 		// apply changes
+		l.aliases = ll.aliases
 		l.comments = append(l.comments, ll.comments...)
 		l.line = ll.line
 		l.col = ll.col
